@@ -81,6 +81,31 @@ func solveOne(res *FuncResult, ob *Obligation, cfg *SolverCfg, idx int) {
 		ob.Status, ob.Solver = "discharged", "govc-trivial"
 		return
 	}
+	// conjunctive goals are solved conjunct by conjunct first (smaller, more stable queries)
+	if ob.Kind != "cover" && !ob.splitDone {
+		parts := splitGoal(ob.Cond)
+		if len(parts) > 1 {
+			all := true
+			var total int64
+			for pi, part := range parts {
+				sub := &Obligation{Name: ob.Name, Kind: ob.Kind, Prefix: ob.Prefix, Reach: ob.Reach, Cond: part, splitDone: true}
+				solveOne(res, sub, cfg, idx*1000+pi)
+				total += sub.Ms
+				if sub.Status != "discharged" {
+					all = false
+					if sub.Status == "refuted" {
+						ob.Status, ob.Solver, ob.Model, ob.Output, ob.Ms = "refuted", sub.Solver, sub.Model, sub.Output, total
+						return
+					}
+					break
+				}
+			}
+			if all {
+				ob.Status, ob.Solver, ob.Ms = "discharged", fmt.Sprintf("split-%d", len(parts)), total
+				return
+			}
+		}
+	}
 	base := filepath.Join(cfg.Dir, fmt.Sprintf("ob_%d_%d", os.Getpid(), idx))
 	fz := base + ".smt2"
 	fc := base + ".cvc.smt2"
@@ -135,7 +160,6 @@ func solveOne(res *FuncResult, ob *Obligation, cfg *SolverCfg, idx int) {
 			return
 		}
 	}
-	// no definitive answer
 	ob.Status = "unknown"
 	var sb strings.Builder
 	for _, o := range outs {
